@@ -190,6 +190,8 @@ def cppEval (ρ : Env) : Expr → CRes
   -- a reference to a virtual field: a literal when constant-typed, otherwise the field's own
   -- accessor, i.e. the C++ evaluation of its definition (whose root does the same test)
   | .vref e => cppEval ρ e
+  -- `has_a()`: the C++ evaluation of the existence condition (rendered on its own, same test)
+  | .present _ c => cppEval ρ c
 def cppEvalList (ρ : Env) : List Expr → List CRes
   | [] => []
   | e :: es => cppEval ρ e :: cppEvalList ρ es
@@ -231,6 +233,100 @@ def opTypesList : List Expr → Option (List (Option CType × Option CType))
   | [] => some []
   | e :: es =>
     match opTypes e, opTypesList es with
+    | some a, some b => some (a ++ b)
+    | _, _ => none
+end
+/-! ## Template arguments of the generated calls (tie to the header text)
+
+`_render_builtin_operation` emits `::emboss::support::<Op></**/IntermediateT, ResultT, ArgTs…>(…)`.
+`ResultT`/`ArgTs` are `_cpp_basic_type_for_expression` of the node and of its operands,
+`IntermediateT` is `_cpp_integer_type_for_range(hull of all integer clauses)` when there is an
+integer clause, otherwise the enum type or `bool`. -/
+
+/-- a C++ type as it appears among the template arguments (`noInt`: the generator printed
+    `None` because `_cpp_integer_type_for_range` found no type) -/
+inductive TName where
+  | int (t : CType)
+  | noInt
+  | bool
+  | enum
+  deriving DecidableEq, Repr, Inhabited
+
+def tnameOfRange (lo hi : Int) : TName :=
+  match cppTypeForRange lo hi with
+  | some t => .int t
+  | none => .noInt
+
+/-- `_cpp_basic_type_for_expression`; `none` = `int("infinity")` raises -/
+def argTName : AType → Option TName
+  | .int a =>
+    match rangeOf a with
+    | some (lo, hi) => some (tnameOfRange lo hi)
+    | none => none
+  | .bool _ => some .bool
+  | .enum _ => some .enum
+
+def argTNames : List AType → Option (List TName)
+  | [] => some []
+  | t :: r =>
+    match argTName t, argTNames r with
+    | some a, some l => some (a :: l)
+    | _, _ => none
+
+def isEnumT : AType → Bool
+  | .enum _ => true
+  | _ => false
+
+/-- `(IntermediateT, ResultT :: ArgTs)` for a node with clause types `tys` = result :: operands;
+    `none` = the generator raises (infinite bound, or integers mixed with enums: the `assert`s) -/
+def nodeSig (tys : List AType) : Option (TName × List TName) :=
+  match intRanges tys, argTNames tys with
+  | some rs, some names =>
+    match hullOf rs with
+    | some (lo, hi) => if tys.any isEnumT then none else some (tnameOfRange lo hi, names)
+    | none => some (if tys.any isEnumT then .enum else .bool, names)
+  | _, _ => none
+
+inductive OpKind where
+  | bin (op : BinOp)
+  | choice
+  | max
+  deriving DecidableEq, Repr, Inhabited
+
+mutual
+/-- the calls the generator emits for an expression, preorder (all run-time function nodes,
+    also the purely boolean / enum ones); `none` = an annotation is not computable or the
+    generator raises.  `$upper_bound`/`$lower_bound`, references and `$present` emit no call. -/
+def opSigs : Expr → Option (List (OpKind × TName × List TName))
+  | .bin op l r =>
+    match abs (.bin op l r), abs l, abs r, opSigs l, opSigs r with
+    | some ty, some tl, some tr, some a, some b =>
+      if isConstType ty then some []
+      else match nodeSig [ty, tl, tr] with
+        | some (it, ns) => some ((.bin op, it, ns) :: (a ++ b))
+        | none => none
+    | _, _, _, _, _ => none
+  | .choice c t f =>
+    match abs (.choice c t f), abs c, abs t, abs f, opSigs c, opSigs t, opSigs f with
+    | some ty, some tc, some tt, some tf, some a, some b, some d =>
+      if isConstType ty then some []
+      else match nodeSig [ty, tc, tt, tf] with
+        | some (it, ns) => some ((.choice, it, ns) :: (a ++ b ++ d))
+        | none => none
+    | _, _, _, _, _, _, _ => none
+  | .max args =>
+    match abs (.max args), absList args, opSigsList args with
+    | some ty, some tys, some l =>
+      if isConstType ty then some []
+      else match nodeSig (ty :: tys) with
+        | some (it, ns) => some ((.max, it, ns) :: l)
+        | none => none
+    | _, _, _ => none
+  | _ => some []
+def opSigsList : List Expr → Option (List (OpKind × TName × List TName))
+  | [] => some []
+  | e :: es =>
+    match opSigs e, opSigsList es with
     | some a, some b => some (a ++ b)
     | _, _ => none
 end
